@@ -53,7 +53,8 @@ Notation(items) == IF Heads(items) = {} THEN "none"
 DegreeInterval(root, acc) ==
   LET n == NatOfDigits(root)  a == AccOf(acc) IN
   IF ~IsUint(root) \/ n < 1 THEN [ok |-> FALSE, may |-> FALSE, iv |-> P1]
-  ELSE [ok |-> TRUE, may |-> FALSE,
+  \* (whether a diminished unison exists is a don't-care, as in C15: `1b` may be refused)
+  ELSE [ok |-> TRUE, may |-> (n = 1 /\ a = -1),
         iv |-> [n |-> n, q |-> IF a = 1 THEN "A" ELSE IF a = -1 THEN (IF PerfectClass(n) THEN "d" ELSE "m")
                                ELSE (IF PerfectClass(n) THEN "P" ELSE "M")]]
 \* syllable notation: the interval from x up to the written note; `may` = crd may refuse it (C03: only scale notes must be accepted)
